@@ -480,3 +480,104 @@ theorem iterate_interchange (f : Int → Int → State V → Except Err (State V
     exact ExEq.refl _
 
 end Exo.C01
+
+namespace Exo.C01
+open Exo
+variable {V : Type} [DataAlg V] (ext : String → List V → V)
+
+/-- one iteration of `if c: B else: E` is an iteration of the branch selected by `c` -/
+theorem branch_step (j : Sym) (c : Expr) (B E : List Stmt) (v : Int) (s : State V) (b : Int)
+    (hc : evalC (s.bind j v) c = .ok b) :
+    loopStep ext j [.ite c B E] v s
+      = if b ≠ 0 then loopStep ext j B v s else loopStep ext j E v s := by
+  unfold loopStep
+  rw [execL_singleton]
+  simp only [execS, hc, bind, Except.bind]
+  by_cases hb : b = 0
+  · simp only [hb, ne_eq, not_true_eq_false, if_false]
+    cases h1 : execL ext E (s.bind j v) with
+    | error e => rfl
+    | ok s1 =>
+      simp only [Except.map]
+      congr 1
+      simp [State.leave, State.bind, List.take_take]
+  · simp only [hb, ne_eq, not_false_eq_true, if_true]
+    cases h1 : execL ext B (s.bind j v) with
+    | error e => rfl
+    | ok s1 =>
+      simp only [Except.map]
+      congr 1
+      simp [State.leave, State.bind, List.take_take]
+
+/-- a state with the scope of `σ` is unchanged by leaving to `σ` -/
+theorem leave_of_same_scope (σ s : State V) (he : s.env = σ.env) (hv : s.views = σ.views)
+    (hl : s.heap.length = σ.heap.length) : State.leave σ s = s := by
+  cases s with
+  | mk env views heap cfg =>
+    simp only [State.leave, State.mk.injEq, true_and]
+    refine ⟨he.symm, hv.symm, ?_, trivial⟩
+    have : heap.length = σ.heap.length := hl
+    rw [← this]; exact List.take_length
+
+/-- the effect of the loop body at iteration `(i, j) = (a, b)`, in its own scope -/
+def stepIJ (i j : Sym) (B : List Stmt) (a b : Int) (s : State V) : Except Err (State V) :=
+  (execL ext B ((s.bind i a).bind j b)).map (State.leave s)
+
+/-- the value of a bound that mentions neither configuration state nor `x` is the same under an
+    extra binding of `x` and in any state with the same environment and views -/
+theorem evalC_bound_stable (e : Expr) (x : Sym) (v : Int) (σ s : State V) (c : Int)
+    (hf : e.cfgFree = true) (hx : e.occC x = false) (he : s.env = σ.env) (hv : s.views = σ.views)
+    (h : evalC σ e = .ok c) : evalC (s.bind x v) e = .ok c := by
+  have e1 : s.bind x v = s.withEnv ((x, v) :: s.env) := rfl
+  rw [e1, evalC_env e s _ (fun y hy => by
+    have : y ≠ x := by intro e'; subst e'; rw [hx] at hy; cases hy
+    simp [lookupSym_cons, this])]
+  rw [evalC_cfgFree e σ s hf he hv]
+  exact h
+
+/-- one iteration of the outer loop of a two-deep nest is a run of `stepIJ` over the inner range -/
+theorem nest_outer_step (i j : Sym) (lo2 hi2 : Expr) (B : List Stmt) (par : Bool) (a : Int)
+    (σ s : State V) (l2 h2 : Int) (hl2 : evalC σ lo2 = .ok l2) (hh2 : evalC σ hi2 = .ok h2)
+    (hle : l2 ≤ h2) (fl : lo2.cfgFree = true) (fh : hi2.cfgFree = true)
+    (il : lo2.occC i = false) (ih : hi2.occC i = false)
+    (he : s.env = σ.env) (hv : s.views = σ.views) :
+    loopStep ext i [.loop j lo2 hi2 B par] a s
+      = iterate (fun b => stepIJ ext i j B a b) (h2 - l2).toNat l2 s := by
+  conv => lhs; unfold loopStep
+  rw [execL_singleton,
+      execS_loop ext j lo2 hi2 B par (s.bind i a) l2 h2
+        (evalC_bound_stable lo2 i a σ s l2 fl il he hv hl2)
+        (evalC_bound_stable hi2 i a σ s h2 fh ih he hv hh2) hle]
+  have hinner : ∀ k t, loopStep ext j B k (t.bind i a)
+      = (stepIJ ext i j B a k t).map (fun u => u.bind i a) := by
+    intro k t
+    unfold loopStep stepIJ
+    cases execL ext B ((t.bind i a).bind j k) <;> rfl
+  rw [iterate_map_bind (fun k => stepIJ ext i j B a k) i a _ hinner]
+  cases hit : iterate (fun k => stepIJ ext i j B a k) (h2 - l2).toNat l2 s with
+  | error e => rfl
+  | ok s1 =>
+    have sc := iterate_heapLen _ (fun v t t' ht => by
+      obtain ⟨t2, h2', rfl⟩ := map_leave_ok ht
+      have := (execL_scope ext B ((t.bind i a).bind j v) t2 h2').2.1
+      exact ⟨leave_heap_length t t2 this, rfl, rfl⟩) _ _ _ _ hit
+    simp only [Except.map]
+    rw [leave_bind_of_scope s s1 i a sc.2.1 sc.2.2 sc.1]
+
+/-- binding `i` then `j` or `j` then `i` is the same for the body when `i ≠ j` -/
+theorem stepIJ_swap (i j : Sym) (hij : i ≠ j) (B : List Stmt) (a b : Int) (s : State V) :
+    stepIJ ext j i B b a s = stepIJ ext i j B a b s := by
+  unfold stepIJ
+  have e : (s.bind j b).bind i a = ((s.bind i a).bind j b).withEnv ((i, a) :: (j, b) :: s.env) := rfl
+  rw [e, execL_env ext B ((s.bind i a).bind j b) _ (fun y _ => by
+    simp only [State.bind, lookupSym_cons]
+    by_cases h1 : y = i
+    · subst h1; simp [hij]
+    · by_cases h2 : y = j
+      · subst h2; simp [Ne.symm hij]
+      · simp [h1, h2])]
+  cases execL ext B ((s.bind i a).bind j b) with
+  | error e => rfl
+  | ok s1 => rfl
+
+end Exo.C01
